@@ -77,10 +77,13 @@ def mol_spec(pr, rng, max_active_sos=8, allow_uhf=True, allow_frozen=True, kinds
                 frozen = [0]
             elif opt == "int" and nocc >= 2 and spin == 0:
                 frozen = 1
-        if uhf and frozen is not None and not isinstance(frozen, int) and pr.random() < 0.5:
-            # per-spin lists for UHF
-            fb = list(frozen)
-            frozen = [list(frozen), fb]
+        if uhf and frozen is not None:
+            # UHF takes per-spin lists; alpha and beta lists may differ (here: possibly one more virtual frozen for beta)
+            fa = list(range(frozen)) if isinstance(frozen, int) else list(frozen)
+            fb = list(fa)
+            if pr.random() < 0.5 and k in ("H4", "H4ring", "H4cluster", "H2_321g", "H4+") and 3 not in fb:
+                fb = sorted(fb + [3])
+            frozen = [fa, fb]
         spec = {"label": k, "xyz": xyz, "q": q, "spin": spin, "basis": basis, "frozen": frozen, "uhf": uhf}
         return spec
     raise RuntimeError("no molecule")
